@@ -822,11 +822,10 @@ class vDuration(TimeBase):
                 minutes=int(minutes or 0),
                 seconds=int(seconds or 0)
             )
+            if sign == '-':
+                value = -value
         except OverflowError as e:
             raise ValueError(f'iCalendar duration out of range: {ical}') from e
-
-        if sign == '-':
-            value = -value
 
         return value
 
